@@ -355,12 +355,15 @@ pub fn round_c02(rt: &tokio::runtime::Runtime, hooks: &Hooks, seed: u64) -> Valu
         writer_handles.push(std::thread::spawn(move || {
             for s in 0..per_writer {
                 let ctx = if (w + s) % 3 == 0 { ctx_a } else { ZERO_CONTEXT };
-                let f = Frame::builder(format!("t{}", w % 2), ctx).meta(json!({"w": w, "s": s})).build();
+                // writers mix TTL kinds: ephemeral frames take the same id / broadcast path without a commit
+                let eph = (w * 7 + s) % 5 == 2;
+                let ttl = if eph { Some(TTL::Ephemeral) } else if s % 9 == 4 { Some(TTL::Head(u32::MAX)) } else { None };
+                let f = Frame::builder(format!("t{}", w % 2), ctx).meta(json!({"w": w, "s": s})).maybe_ttl(ttl).build();
                 let call = us(base);
                 let r = store.append(f);
                 let ret = us(base);
                 if let Ok(f) = r {
-                    acks.lock().unwrap().push(Ack { id: f.id.to_u128(), ctx: f.context_id.to_u128(), call, ret, ephemeral: false, topic: f.topic });
+                    acks.lock().unwrap().push(Ack { id: f.id.to_u128(), ctx: f.context_id.to_u128(), call, ret, ephemeral: eph, topic: f.topic });
                 }
             }
         }));
@@ -387,7 +390,7 @@ pub fn round_c02(rt: &tokio::runtime::Runtime, hooks: &Hooks, seed: u64) -> Valu
         let (seq, polls) = h.join().unwrap();
         polls_total += polls;
         let expect: Vec<u128> = {
-            let mut e: Vec<u128> = acks_v.iter().filter(|a| scope.map(|s| s.to_u128() == a.ctx).unwrap_or(true)).map(|a| a.id).collect();
+            let mut e: Vec<u128> = acks_v.iter().filter(|a| !a.ephemeral && scope.map(|s| s.to_u128() == a.ctx).unwrap_or(true)).map(|a| a.id).collect();
             if scope.is_none() || *scope == Some(ZERO_CONTEXT) {
                 e.push(ctx_a.to_u128()); // the registration frame itself
             }
@@ -399,6 +402,9 @@ pub fn round_c02(rt: &tokio::runtime::Runtime, hooks: &Hooks, seed: u64) -> Valu
             violation(&mut out, &["C02", "C01"], "poller/ids-not-strictly-increasing", d.clone());
         }
         let got: BTreeSet<u128> = seq.iter().copied().collect();
+        if let Some(x) = acks_v.iter().find(|a| a.ephemeral && got.contains(&a.id)) {
+            violation(&mut out, &["C09", "C02"], "poller/ephemeral-frame-was-stored", json!({"id": crate::model::id_str(x.id)}));
+        }
         let missing: Vec<u128> = expect.iter().copied().filter(|i| !got.contains(i)).collect();
         if !missing.is_empty() {
             violation(
@@ -458,7 +464,7 @@ pub fn round_c02(rt: &tokio::runtime::Runtime, hooks: &Hooks, seed: u64) -> Valu
             inconclusive = Some("follower did not reach its sentinel within 30 s".into());
         }
         if !tail && how == "sentinel" {
-            let expect: BTreeSet<u128> = acks_v.iter().filter(|a| scope.map(|s| s.to_u128() == a.ctx).unwrap_or(true)).map(|a| a.id).collect();
+            let expect: BTreeSet<u128> = acks_v.iter().filter(|a| !a.ephemeral && scope.map(|s| s.to_u128() == a.ctx).unwrap_or(true)).map(|a| a.id).collect();
             let gs: BTreeSet<u128> = real.iter().copied().collect();
             let missing: Vec<u128> = expect.iter().copied().filter(|i| !gs.contains(i)).collect();
             if !missing.is_empty() {
